@@ -5,6 +5,7 @@ import (
 	"errors"
 	"fmt"
 	"reflect"
+	"strings"
 
 	hessian "github.com/vogo/gohessian"
 )
@@ -48,9 +49,17 @@ func (w *faultWriter) Write(p []byte) (int, error) {
 type countWriter struct {
 	calls int
 	n     int
+	sizes []string
+	all   []byte
 }
 
-func (w *countWriter) Write(p []byte) (int, error) { w.calls++; w.n += len(p); return len(p), nil }
+func (w *countWriter) Write(p []byte) (int, error) {
+	w.calls++
+	w.n += len(p)
+	w.sizes = append(w.sizes, fmt.Sprint(len(p)))
+	w.all = append(w.all, p...)
+	return len(p), nil
+}
 
 func c15Value(c *ctx, val interface{}, label string, seed uint64, budget int) {
 	_, nm := hessian.ExtractTypeNameMap(val)
@@ -61,6 +70,12 @@ func c15Value(c *ctx, val interface{}, label string, seed uint64, budget int) {
 	}
 	writes := cw.calls
 	c.dist["writes_total"] += writes
+	// the model's Write calls: same number and sizes
+	if h, err := hparseAll(cw.all); err == nil {
+		if ord, ok := recoverMapOrder(h, val, nm); ok {
+			c.corr("encw "+nameMapStr(nm)+" "+gvalString(val, ord), "ok "+strings.Join(cw.sizes, ","))
+		}
+	}
 	kinds := []string{"once", "fromk", "short", "shortnil"}
 	for k := 0; k < writes; k++ {
 		for _, kind := range kinds {
